@@ -117,7 +117,9 @@ def uses(draw, table, plain_args=False):
             for _ in range(nargs):
                 pool = ["1", "x", "", "(a, b)", "f(1, 2)", "a b", "\"s,t\"", "','", "(", "[1, 2]", "-1", "\"a\\\"b\"", "'\\''", "a  +   b", "/*c*/ q",
                         # line breaks inside an argument are white space like any other, for substitution and for # (6.10.3p10)
-                        "p\nq", "unsigned\nlong", "(a,\nb)", "x +\ny", "\"s\"\n\"t\"", "a\n\nb", "a /*c*/\nb", "a\n  b", "a \nb", "-\n-x", "1\n.\n2"]
+                        "p\nq", "unsigned\nlong", "(a,\nb)", "x +\ny", "\"s\"\n\"t\"", "a\n\nb", "a /*c*/\nb", "a\n  b", "a \nb", "-\n-x", "1\n.\n2",
+                        # a backslash-newline is deleted before tokens are formed: it is not white space and may sit inside a token
+                        "1+\\\n2", "p\\\nq", "x\\\n+y", "a+\\\n\\\nb", "\"s\\\nt\"", "1\\\n.5", "a \\\n b", "<\\\n<"]
                 if not plain_args:
                     # avoid(stringify-arg-with-invocation): a recorded finding; see known_findings.json
                     pool += ["A", "B", "F", "G(1)", "F(F(2))", "H", "C(3)(4)"]
@@ -167,7 +169,7 @@ def token_cases(draw):
         # parameters that are ONLY stringized: their arguments are not macro-expanded at all (6.10.3.1p1), also when they
         # contain invocations of function-like macros (the recorded finding concerns parameters used both ways)
         out.append("#define ZS(x) #x\n#define ZV(...) #__VA_ARGS__\n#define ZC(c, d) chk(#c, d)\n#define ZW(a) #a #a")
-        sargs = ["ZID(7)", "ZTWO(1, 2) + 3", "ZID (7)", "ZFST(1)", "ZFST(1, 2, 3)", "ZONE ZID(ZONE)", "ZID(ZID(1))", "ZNONE ZID()", "ZTWO(1)", "ZS(ZID(2))", "ZONE\nZONE", "1\n+2", "a\nb\n\nc", "(1,\n(2,\n3))", "+\n+", "<\n<", "a\n"]
+        sargs = ["ZID(7)", "ZTWO(1, 2) + 3", "ZID (7)", "ZFST(1)", "ZFST(1, 2, 3)", "ZONE ZID(ZONE)", "ZID(ZID(1))", "ZNONE ZID()", "ZTWO(1)", "ZS(ZID(2))", "ZONE\nZONE", "1\n+2", "a\nb\n\nc", "(1,\n(2,\n3))", "+\n+", "<\n<", "a\n", "1+\\\n2", "u-\\\nv", "p\\\nq+\\\nr", "ZO\\\nNE", "ZONE\\\n ZONE"]
         for _ in range(draw(st.integers(1, 4))):
             a1 = draw(st.sampled_from(sargs))
             out.append(draw(st.sampled_from(["ZS(%s) ;", "ZV(%s) ;", "ZV(%s, ZID(3)) ;", "ZC(%s, ZID(4)) ;", "ZW(%s) ;", "ZS( %s ) ;"])) % a1)
@@ -179,6 +181,10 @@ def token_cases(draw):
                                              "ZXS(ZID\n ZID\n(4)) ;", "x ZID\ny ;", "ZS(ZID\n-1) ;"])))
         # a function-like macro name that ends an argument whose parameter ends the replacement list: after substitution the
         # expander looks past the end of the exhausted frames for a '(' and, finding none, must still have the name token
+        # replacement lists written over spliced lines, stringized at a second level; a benign redefinition without the splice
+        out.append("#define ZSP p+\\\nq\n#define ZSQ(a, b) ZXS(a-\\\nb)\n#define ZSP p+q")
+        for _ in range(draw(st.integers(0, 2))):
+            out.append(draw(st.sampled_from(["ZXS(ZSP) ;", "ZSQ(u, v) ;", "ZS(ZSP) ZXS(ZSP) ;", "ZSQ(ZSP, ZONE) ;"])))
         out.append("#define ZLAST(x) x\n#define ZLAST2(a, b) a b")
         for _ in range(draw(st.integers(0, 3))):
             out.append(draw(st.sampled_from(["ZLAST(1 + ZID) ;", "ZLAST(ZID) + 1 ;", "ZLAST(int ZFST) = 3 ;", "ZLAST(ZLAST(2 * ZTWO)) ;", "ZLAST2(1, ZID) ;", "ZLAST2(ZID, ZTWO) - ZONE ;",
@@ -255,7 +261,13 @@ def token_check(case, ctx):
         if "not yet implemented" in msg or "is not implemented" in msg:
             res.discard.append("unimplemented-directive")
             return res
-        res.fail = dict(sig="reject:" + msg.split("error:")[-1].strip()[:40], msg="valid macro usage rejected: %s" % msg[:200], input=text)
+        sig = "reject:" + msg.split("error:")[-1].strip()[:40]
+        # recorded finding (same root as stringify-arg-with-invocation: arguments are expanded while they are collected): a macro
+        # whose replacement list leaves an invocation open, expanded inside an argument, swallows the closing parenthesis of the
+        # outer invocation.  Only for units that contain such an unbalanced replacement list.
+        if "EOF when reading macro parameters" in msg and any(ln.count("(") > ln.count(")") for ln in text.splitlines() if ln.startswith("#define") and "(" in ln.split(None, 2)[-1]):
+            sig = "open-invocation-expanded-inside-argument"
+        res.fail = dict(sig=sig, msg="valid macro usage rejected: %s" % msg[:200], input=text)
         return res
     if toks != want:
         i = 0
